@@ -21,7 +21,8 @@ Init == /\ origin \in {"empty", "loaded"}            \* Document() or Document(f
 More == Len(hist) < MaxOps
 Used == { entries[i].p : i \in 1..Len(entries) }
 (* add_path(path, attribs, group): group = None (root), a list of nested names (get-or-add), or an element *)
-AddPath == More /\ \E p \in 1..NPaths, a \in 0..2, how \in {"none", "names", "element"}, g \in GroupSpecs :
+AddPath == More /\ \E p \in 1..NPaths, a \in 0..3,     \* attribute sets: none / two plain ones / one carrying a stale 'd' of another path
+             how \in {"none", "names", "element"}, g \in GroupSpecs :
              /\ p \notin Used /\ \A q \in 1..(p-1) : q \in Used        \* ids are used in order (symmetry)
              /\ (how = "none" => g = <<>>)
              /\ (how = "element" => g \in groups /\ g # <<>>)
